@@ -7,10 +7,16 @@ use_repo()
 
 XSI = E.XSI
 BASE = {'shape': {'s1': 1}, 'n': 5, 's': 'hello', 'd': '2020-02-29', 'col': 'red', 'xs': [1, 2],
-        'ps': [{'name': 'ann', 'age': 30, 'born': '1990-01-02'}], 'p': {'name': 'bob', 'age': 40, 'born': '1980-03-04'}}
+        'ps': [{'name': 'ann', 'age': 30, 'born': '1990-01-02'}], 'p': {'name': 'bob', 'age': 40, 'born': '1980-03-04'},
+        'fl': 1.5, 'b': True}
+HDR = {'token': 'tok-1', 'n': 3, 'd': '2021-05-06'}
+HDR_T = {'k': 'obj', 'ns': 'tns', 'name': 'Session'}
 TREES = {'emptymap': {}, 'emptylist': [], 'map1': {'k': 1}, 'list1': [1], 'str': 'str', 'strnum': '5', 'zero': 0, 'one': 1, 'false': False,
          'true': True, 'float': 1.5, 'emptystr': '', 'listlist': [[]], 'personmap': {'name': 'x', 'age': 1},
-         'wrapped_person': {'Person': {'name': 'x'}}, 'wrapped_appcircle': {'Circle': {'x': 'y'}}}
+         'wrapped_person': {'Person': {'name': 'x'}}, 'wrapped_appcircle': {'Circle': {'x': 'y'}},
+         'negfloat': -1.0, 'null': None, 'listnull': [None],
+         'ydate': datetime.date(2020, 1, 1), 'yset': {1, 2}}
+YAML_ONLY = ('ydate', 'yset')
 
 
 def export(ctx):
@@ -25,9 +31,9 @@ def export(ctx):
 
 def build(table, inp, outp):
     """the zoo application from the exported table -> (wsgi, seen, classes)"""
-    from spyne import Application, Service, srpc, ComplexModel, Integer, Unicode, Date, Boolean, Array, Enum
+    from spyne import Application, Service, srpc, rpc, ComplexModel, Integer, Unicode, Date, Boolean, Double, Array, Enum
     from spyne.server.wsgi import WsgiApplication
-    prim = {'Integer': Integer, 'Unicode': Unicode, 'Date': Date, 'Boolean': Boolean}
+    prim = {'Integer': Integer, 'Unicode': Unicode, 'Date': Date, 'Boolean': Boolean, 'Double': Double}
     Color = Enum('red', 'green', type_name='Color')
     classes = {}
 
@@ -37,7 +43,7 @@ def build(table, inp, outp):
         if t['k'] == 'arr': return Array(ty(t['of']))
         return classes[(t['ns'], t['name'])]
     fields = table['fields']
-    order = [('tns', 'Shape'), ('tns', 'Circle'), ('tns', 'Square'), ('tns', 'Person'), ('urn:app', 'Circle')]
+    order = [('tns', 'Shape'), ('tns', 'Circle'), ('tns', 'Square'), ('tns', 'Person'), ('urn:app', 'Circle'), ('tns', 'Session')]
     for ns, name in order:
         base = ComplexModel
         own = fields[(ns, name)]
@@ -47,8 +53,9 @@ def build(table, inp, outp):
         classes[(ns, name)] = type(str(name), (base,), {'__namespace__': ns, '_type_info': [(n, ty(t)) for n, t in own]})
     seen = []
     names = [n for n, _ in table['args']]
-    src = 'def f(%s):\n    seen.append([%s])\n    return 1\n' % (', '.join(names), ', '.join(names))
-    nsd = {'seen': seen}
+    src = 'def f(ctx, %s):\n    seen.append([%s])\n    hdrs.append(ctx.in_header)\n    return 1\n' % (', '.join(names), ', '.join(names))
+    hdrs = []
+    nsd = {'seen': seen, 'hdrs': hdrs}
     exec(src, nsd)
 
     gseen = []
@@ -56,10 +63,11 @@ def build(table, inp, outp):
     def g(c):
         gseen.append(c)
         return 2
-    svc = type('Zoo', (Service,), {'f': srpc(*[ty(t) for _, t in table['args']], _returns=Integer)(nsd['f']),
+    svc = type('Zoo', (Service,), {'__in_header__': classes[('tns', 'Session')],
+                                   'f': rpc(*[ty(t) for _, t in table['args']], _returns=Integer)(nsd['f']),
                                    'g': srpc(classes[('urn:app', 'Circle')], _returns=Integer)(g)})
     app = Application([svc], 'tns', in_protocol=inp, out_protocol=outp)
-    return WsgiApplication(app), seen, classes, Color, gseen
+    return WsgiApplication(app), seen, classes, Color, gseen, hdrs
 
 
 def shape(x, Color):
@@ -92,7 +100,7 @@ def hit(m, path):
     return m is not None and list(m['pos']['path']) == [str(p) for p in path]
 
 
-def xml_request(table, m):
+def xml_request(table, m, header=False):
     def elem(name, t, v, path):
         q = 'tns:' + name
         attrs = ''
@@ -106,7 +114,7 @@ def xml_request(table, m):
             return '<%s%s>abc</%s>' % (q, attrs, q)
         k = t['k']
         if k in ('prim', 'enum'):
-            return '<%s%s>%s</%s>' % (q, attrs, E.xml_escape(str(v)), q)
+            return '<%s%s>%s</%s>' % (q, attrs, E.xml_escape(E.lex(v)), q)
         if k == 'arr':
             it = t['of']
             iname = {'Integer': 'integer'}.get(it.get('p'), it.get('name'))
@@ -114,7 +122,11 @@ def xml_request(table, m):
         inner = ''.join(elem(n, ft, v[n], path + [n]) for n, ft in table['fields'][(t['ns'], t['name'])] if n in v)
         return '<%s%s>%s</%s>' % (q, attrs, inner, q)
     body = ''.join(elem(n, t, BASE[n], [n]) for n, t in table['args'])
-    return '<tns:f xmlns:tns="tns" xmlns:xsi="%s">%s</tns:f>' % (XSI, body)
+    doc = '<tns:f xmlns:tns="tns" xmlns:xsi="%s">%s</tns:f>' % (XSI, body)
+    if not header:
+        return doc, ''
+    h = elem('Session', HDR_T, HDR, ['@hdr']).replace('<tns:Session', '<tns:Session xmlns:tns="tns" xmlns:xsi="%s"' % XSI, 1)
+    return doc, h
 
 
 def xml_prime():
